@@ -111,6 +111,33 @@ def make_callable(sig, how, rec, ret):
     return fn
 
 
+def build_forwarding(sig, how, group, rec):
+    """s0 -go-> s1 -nxt-> s2 where `nxt` is used as a callback (after=) of `go`: the event `nxt` is sent from inside
+    `go` with go's positional and keyword arguments; the callable under test is attached to nxt's transition."""
+    from statemachine import State, StateMachine
+    from statemachine.factory import StateMachineMetaclass
+    fn = make_callable(sig, how, rec, True if group == "cond" else "RET")
+    s0, s1, s2 = State(initial=True), State(), State()
+    attrs = {"s0": s0, "s1": s1, "s2": s2, "__module__": "vmod_c07"}
+    model_attrs, lis_attrs = {"state": None}, {}
+    ref = "cb"
+    if how in ("sm_method", "coro_method"):
+        attrs["cb"] = fn
+    elif how == "model_method":
+        model_attrs["cb"] = fn
+    elif how == "listener_method":
+        lis_attrs["cb"] = fn
+    else:
+        ref = fn
+    attrs["go"] = s0.to(s1, after="nxt")
+    attrs["nxt"] = s1.to(s2, **{group: ref})
+    attrs["back"] = s2.to(s0)
+    cls = StateMachineMetaclass("BindM", (StateMachine,), attrs)
+    model = type("BModel", (), model_attrs)()
+    listener = type("BListener", (), lis_attrs)()
+    return cls, model, listener
+
+
 def build(sig, how, group, rec):
     from statemachine import State, StateMachine
     from statemachine.factory import StateMachineMetaclass
@@ -142,8 +169,9 @@ def build(sig, how, group, rec):
     return cls, model, listener
 
 
-def matches(token, value, sm, group):
-    """Does the received value correspond to the spec's token?"""
+def matches(token, value, sm, group, ctx=("go", "s0", "s1")):
+    """Does the received value correspond to the spec's token?  ctx = (event, source id, target id) of the event the
+    callback belongs to."""
     from statemachine.event_data import EventData
     from statemachine.state import State
     from statemachine.transition import Transition
@@ -154,14 +182,15 @@ def matches(token, value, sm, group):
         return value is sm or getattr(value, "model", None) is sm.model
     if name == "model":
         return value is sm.model
+    ev, src, tgt = ctx
     if name == "event":
-        return str(value) == "go"
+        return str(value) == ev
     if name == "transition":
-        return isinstance(value, Transition) and value.source.id == "s0" and value.target.id == "s1"
+        return isinstance(value, Transition) and value.source.id == src and value.target.id == tgt
     if name == "event_data":
-        return isinstance(value, EventData) and str(value.event) == "go"
+        return isinstance(value, EventData) and str(value.event) == ev
     if name in ("source", "target", "state"):
-        want = {"source": "s0", "target": "s1", "state": "s1" if group in ("enter", "after") else "s0"}[name]
+        want = {"source": src, "target": tgt, "state": tgt if group in ("enter", "after") else src}[name]
         return isinstance(value, State) and value.id == want
     return False
 
@@ -176,23 +205,21 @@ def run(pid, tier, seed, replay):
         return 1
     import warnings
     warnings.simplefilter("ignore", RuntimeWarning)
-    shapes = legal_signatures(3 if quick else 4)
-    if quick:
-        shapes = shapes + rng.sample(legal_signatures(4), 250)
+    shapes = legal_signatures(4 if quick else 5)
     cases = []
     for shape in shapes:
-        for _ in range(2 if quick else 3):
+        for _ in range(3):
             sig = name_sig(rng, shape)
             named = [p["name"] for p in sig if p["kind"] in ("PK", "KO", "PO")]
             for npos in range(0, 4):
-                for _ in range(2 if quick else 3):
+                for _ in range(3 if quick else 5):
                     pool = named + ["zz"] + rng.sample(BUILTINS, 2)
                     user_names = [n for n in pool if rng.random() < 0.4]
                     user = [{"name": n, "val": f"u:{n}"} for n in dict.fromkeys(user_names)]
                     cases.append({"sig": sig, "pos": [f"p{j + 1}" for j in range(npos)], "user": user,
                                   "builtins": [{"name": b, "val": f"B:{b}"} for b in BUILTINS]})
-    if quick and len(cases) > 9000:
-        cases = rng.sample(cases, 9000)
+    if quick and len(cases) > 16000:
+        cases = rng.sample(cases, 16000)
     res, st = tlc.eval_batch("Eval_Bind.tla", cases, shards=14)
     insane = [r for r in res if not r["sane"]]
     if insane:
@@ -200,7 +227,7 @@ def run(pid, tier, seed, replay):
     chk.coverage["tlc_cases_evaluated"] = len(cases)
     hows = ["sm_method", "model_method", "listener_method", "function", "partial", "coro_method"]
     groups = ["on", "before", "after", "cond", "enter", "validators"]
-    nrun = nunspec = ntypeerr = 0
+    nrun = nunspec = ntypeerr = nforw = 0
     distinct = set()
     for c, r in zip(cases, res):
         if r["unspec"]:
@@ -210,17 +237,21 @@ def run(pid, tier, seed, replay):
         group = rng.choice(groups)
         if how == "coro_method" and group == "enter":
             group = "on"
+        forwarded = rng.random() < 0.2 and how != "coro_method"
+        if forwarded:
+            group = rng.choice(["on", "before", "after", "cond", "validators"])
+        ctx = ("nxt", "s1", "s2") if forwarded else ("go", "s0", "s1")
         rec = []
         key = (tuple((p["name"], p["kind"], p["hasdef"]) for p in c["sig"]), len(c["pos"]),
                tuple(u["name"] for u in c["user"]))
         distinct.add(key)
-        feats = {"how": how, "group": group,
+        feats = {"how": how, "group": group, "forwarded_from_parent_event": forwarded,
                  "ko_after_surplus_positional": any(p["kind"] == "KO" for p in c["sig"]) and len(c["pos"]) >
                  sum(1 for p in c["sig"] if p["kind"] in ("PO", "PK")) and not any(p["kind"] == "VP" for p in c["sig"])}
         replay_info = {"signature": c["sig"], "pos": c["pos"], "user_kwargs": c["user"], "how": how, "group": group,
                        "expected": r}
         try:
-            cls, model, listener = build(c["sig"], how, group, rec)
+            cls, model, listener = (build_forwarding if forwarded else build)(c["sig"], how, group, rec)
             sm = cls(model, listeners=[listener])
         except Exception as e:  # noqa: BLE001
             chk.report(dict(feats, kind="construction_failed", error=type(e).__name__),
@@ -236,6 +267,7 @@ def run(pid, tier, seed, replay):
         except Exception as e:  # noqa: BLE001
             outcome = "other:" + type(e).__name__
             err = str(e)
+        nforw += forwarded
         if r["missing"]:
             ntypeerr += 1
             if outcome != "TypeError":
@@ -254,7 +286,7 @@ def run(pid, tier, seed, replay):
         bad = []
         for b in r["bound"]:
             if b["how"] in ("pos", "kw"):
-                if b["name"] not in got or not matches(b["val"], got[b["name"]], sm, group):
+                if b["name"] not in got or not matches(b["val"], got[b["name"]], sm, group, ctx):
                     bad.append((b["name"], b["val"], repr(got.get(b["name"], "<absent>"))[:40]))
             elif b["how"] == "default":
                 if got.get(b["name"]) != f"d:{b['name']}":
@@ -265,7 +297,7 @@ def run(pid, tier, seed, replay):
         if any(p["kind"] == "VK" for p in c["sig"]):
             kw = got.get("kwargs", {})
             want = {e["name"]: e["val"] for e in r["varkw"]}
-            if set(kw) != set(want) or not all(matches(want[n], kw[n], sm, group) for n in want):
+            if set(kw) != set(want) or not all(matches(want[n], kw[n], sm, group, ctx) for n in want):
                 bad.append(("**kwargs", sorted(want), sorted(kw)))
         if bad:
             chk.report(dict(feats, kind="binding_mismatch"),
@@ -278,8 +310,8 @@ def run(pid, tier, seed, replay):
                                          if k != "kwargs"}})
     chk.coverage.update({
         "evaluations": nrun, "distinct_nontrivial": len(distinct), "unspecified_corner_skipped": nunspec,
-        "required_parameter_missing_cases": ntypeerr, "exhaustive": not quick,
-        "rule": ("every legal signature shape of <=3 (quick; + a sample of 4) / <=4 (thorough) parameters over positional-only, "
+        "required_parameter_missing_cases": ntypeerr, "forwarded_from_parent_event_cases": nforw, "exhaustive": True, "signature_shapes": len(shapes),
+        "rule": ("every legal signature shape of <=4 (quick) / <=5 (thorough) parameters over positional-only, "
                  "positional-or-keyword, *args, keyword-only, **kwargs with every default pattern; names drawn from a,b,k,x and the "
                  "built-in names; call shapes: 0-3 positional arguments x random subsets of user keywords incl. the parameters' own names, "
                  "an undeclared name and attempted overrides of built-ins; callable kinds: method on machine/model/listener, function, "
